@@ -31,6 +31,8 @@ def run(ctx):
     ident_rule(ctx, syn)
     add_rule(ctx, syn)
     nocase_rule(ctx)
+    from props.c07 import window_rule
+    window_rule(ctx, syn, rid="C08.WINDOW")   # a TEXT constraint is answered by this search iterator: what it skips, the query misses
 
 
 # ====================================================================== LIMIT
